@@ -153,7 +153,7 @@ func (s *TimerQueue) Cancel(id int) bool {
 
 // 当前时间
 func (s *TimerQueue) currentTimeUnit() int64 {
-	return time.Now().UnixNano() / int64(s.timeUnit)
+	return timeNow().UnixNano() / int64(s.timeUnit)
 }
 
 func (s *TimerQueue) convTimeUnit(t time.Time) int64 {
